@@ -12,6 +12,16 @@ import vloop
 from framework import PropertyCheck
 
 
+
+# payload lengths: mostly short, some around and beyond 128 bytes (EZSP frames reach 200+ bytes; the data field of a DATA
+# frame is randomised over its whole length)
+PADS = [0, 0, 0, 0, 0, 0, 126, 0, 0, 0, 0, 0, 0, 157, 0, 0, 0, 0, 0, 0, 0, 0, 197]
+
+
+def _pad(n):
+    k = PADS[n % len(PADS)]
+    return bytes((n * 7 + j * 13 + 1) % 256 for j in range(k))
+
 class Link:
     def __init__(self, window, rng_choices):
         self.d = c05.Driver()
@@ -44,13 +54,13 @@ class Link:
 
     # ---- labels -----------------------------------------------------------------------------------
     def host_submit(self):
-        pl = bytes([0xA0, self.nid >> 8, self.nid & 0xFF])
+        pl = bytes([0xA0, self.nid >> 8, self.nid & 0xFF]) + _pad(self.nid)
         self.host_subm.append((self.nid, pl))
         self.d.submit(self.nid, pl)
         self.nid += 1
 
     def ncp_submit(self):
-        pl = bytes([0xB0, len(self.ncp_subm) >> 8, len(self.ncp_subm) & 0xFF])
+        pl = bytes([0xB0, len(self.ncp_subm) >> 8, len(self.ncp_subm) & 0xFF]) + _pad(len(self.ncp_subm) + 5)
         self.ncp_subm.append(pl)
         self.ncp.queue.append(pl)
         self.ncp.pump()
